@@ -286,7 +286,10 @@ def expand(spec):
         ts -= ts % res
         conn = byid[e["conn"]]
         if conn["proto"] in ("quic", "udp") and conn.get("unique_ts", True):
-            u = used_ts.setdefault(e["conn"], set())
+            # QUIC datagrams are told apart by their capture timestamps (C02): unique per connection, or - mode
+            # "per_direction" - only within a direction (a coarse tap clock may stamp a request and its answer alike)
+            ukey = (e["conn"], e["d"]) if conn.get("unique_ts") == "per_direction" else e["conn"]
+            u = used_ts.setdefault(ukey, set())
             while ts in u:
                 ts += res
             u.add(ts)
@@ -384,6 +387,10 @@ def build_frame(conn, info, e, mod=None):
         if mod and "payload" in mod:
             payload = mod["payload"](payload)
         fr = NB.frame_udp(src, dst, v6, payload, ident=e["i"], pad_to=pad_to, bad_csum=bad)
+        if not mod:
+            off = 14 + (40 if v6 else 20) + 6
+            if fr[off:off + 2] == b"\xff\xff":
+                e["udp_ffff"] = True
         if mod and mod.get("post"):
             fr = mod["post"](fr)
         return fr
@@ -535,7 +542,9 @@ def finish_expand(spec, w, infos, taplog, stats):
             ln = " ".join(p)
         outlines.append((t, cid, ln))
     keylog_text, items = apply_keychan(kc, outlines, items, frames_meta, taplog)
-    cont = spec.get("container", {})
+    cont = dict(spec.get("container", {}))
+    if cont.get("tsresol") is not None:
+        cont["tsresol"] = tuple(cont["tsresol"])
     if cont.get("blocks_seed") is not None and cont.get("fmt", "pcapng") == "pcapng":
         RB = Rng(cont["blocks_seed"], "blocks")
         with_blocks = []
